@@ -50,6 +50,7 @@
 import DeepModel.Proofs.Frames
 import DeepModel.Proofs.FramesExact
 import DeepModel.Proofs.CollectorTime
+import DeepModel.Proofs.CollectorExamples
 
 namespace C02
 open Heap Collector FrameBase Extracted.Frames Extracted.Collector Frames
@@ -676,10 +677,13 @@ def selections (config : Cfg) (n : Nat) : List Bool := (List.range n).map (fun (
 def timeUpOf (ck : CollectorTime.Clock) (config : Cfg) (n : Nat) : Nat → Bool :=
   fun i => !((CollectorTime.decisions ck (selections config n))[i]?.getD false)
 
-/-- **frames reached after the time budget** — for every scripted clock, stack, heap and configuration: the snapshot still
-    lists EVERY frame of the real stack, in order, with file / function / line / class of self / app flag / short path
-    intact, and a frame that `CollectorTime.Spec.collects` rejects (not selected by the frame type, or reached after a
-    reading more than `maxMs` ms past the trigger's time stamp) carries no variables. -/
+/-- corollary (of `c02_frames`, `c02_unselected_frames_empty` and the refinement `CollectorTime.decisionsFrom_spec` behind
+    `C05.c05_time_exact`; int budgets within `C05.BudgetInRange` are where the clock model is the code) — **frames reached
+    after the time budget**: for every scripted clock, stack, heap and configuration the snapshot still lists EVERY frame of
+    the real stack, in order, with file / function / line / class of self / app flag / short path intact (that half holds
+    whatever the budget did), and a frame that `CollectorTime.Spec.collects` rejects (not selected by the frame type, or
+    reached after a reading more than `maxMs` ms past the trigger's time stamp) carries no variables.  `ck.maxMs` is free
+    here (not read from `config`). -/
 theorem c02_frames_after_budget (H : Heap) (id path : String) (line : Int) (config : Cfg) (app : AppCfg)
     (ck : CollectorTime.Clock) (stack : Stack) (ev : EvalOracle) (s : Frames.Snapshot)
     (h : snapshot H id path line config app (timeUpOf ck config stack.length) stack ev = .ok s) :
@@ -703,5 +707,14 @@ theorem c02_frames_after_budget (H : Heap) (id path : String) (line : Int) (conf
 example : let ck : CollectorTime.Clock := ⟨1, 100, fun k => [5, 100000002, 0].getD k 0⟩
     (List.range 3).map (CollectorTime.Spec.collects ck (selections [("frame_type", .text "all_frame")] 3)) =
       [true, false, false] := by decide
+
+set_option maxRecDepth 200000
+/-- non-vacuity on a whole `snapshot`: `z = [[1,2,3],[4,5,6],[7,8,9]]; y = 7` paused in `f`, called from a frame with the same
+    locals, all_frame, second reading 1 ns over 100 ms: both frames listed, the first with its 2 locals, the second empty -/
+example : (match snapshot Collector.Ex.nested "tp" "/app/m.py" 3 [("frame_type", .text "all_frame")] ⟨"/app", [], []⟩
+      (timeUpOf ⟨1, 100, fun k => [5, 100000002].getD k 0⟩ [("frame_type", .text "all_frame")] 2)
+      [⟨"/app/m.py", "f", 3, 0, []⟩, ⟨"/app/m.py", "g", 9, 0, []⟩] (fun _ _ => 0) with
+    | .ok s => s.frames.map (fun f => (f.method_name, f.variables.length))
+    | .error _ => []) = [("f", 2), ("g", 0)] := by decide
 
 end C02
